@@ -71,6 +71,13 @@ def catalog_part(seed, tier, v):
                 kd = b["after"][n]
                 steps.append({"sql": f"select a, b from o{n}"}); plan.append(("probe", n, kd != "none"))
                 steps.append({"sql": f"insert into o{n} values (1, 3)"}); plan.append(("probe", n, kd == "table"))
+            # what the catalog lists about itself (before the probes' own INSERTs change nothing in it)
+            steps.append({"sql": "select table_name, table_id from pg_catalog.pg_tables where schema_name = 'postgres'"})
+            plan.append(("listing", sorted("o" + n for n in names if b["after"][n] != "none"), True))
+            steps.append({"sql": "select count(*) from pg_catalog.pg_tables where schema_id = 1"})
+            plan.append(("count", sum(1 for n in names if b["after"][n] != "none"), True))
+            steps.append({"sql": "select column_name, table_name from pg_catalog.pg_attribute where schema_name = 'postgres'"})
+            plan.append(("columns", sorted((c, "o" + n) for n in names if b["after"][n] != "none" for c in "ab"), True))
             runs.append({"id": f"cat{k}.{eng}", "engine": eng, "steps": steps})
             plans.append((b, plan))
     outs = run_sharded("sql", runs, tag="c17cat", timeout=3000, case_timeout=60)
@@ -89,6 +96,21 @@ def catalog_part(seed, tier, v):
                             f"[{run['engine']}] `{st['sql']}` after {[s['sql'] for s in run['steps'][:run['steps'].index(st)]][-4:]} "
                             f"panicked: {str(res.get('err'))[:160]}")
                 break
+            if kind == "listing" and res["ok"]:
+                got = [("".join(chr(c) for c in row[0][1]), row[1][1]) for row in res["rows"]]
+                if sorted(g[0] for g in got) != what or len({g[1] for g in got}) != len(got):
+                    v.violation({"case": run, "at": st["sql"], "result": res, "expected": what},
+                                f"[{run['engine']}] pg_tables lists {sorted(got)}, Catalog.tla says {what} (distinct ids)")
+                    break
+                continue
+            if kind in ("count", "columns") and res["ok"]:
+                txt = lambda cell: "".join(chr(c) for c in cell[1])
+                got = res["rows"][0][0][1] if kind == "count" else sorted((txt(r[0]), txt(r[1])) for r in res["rows"])
+                if got != what:
+                    v.violation({"case": run, "at": st["sql"], "result": res, "expected": what},
+                                f"[{run['engine']}] `{st['sql']}` returned {got}, Catalog.tla says {what}")
+                    break
+                continue
             if res["ok"] != want:
                 v.violation({"case": run, "at": st["sql"], "result": res, "expected_ok": want},
                             f"[{run['engine']}] `{st['sql']}` was {'accepted' if res['ok'] else 'refused'}, "
